@@ -5,6 +5,7 @@ mod c07;
 mod c0809;
 mod c12;
 mod c18;
+mod calls;
 mod common;
 mod fmt;
 mod gen;
